@@ -769,10 +769,22 @@ func GenChange(rng *rand.Rand, cfg Config, s *State) pipeline.Change {
 			}
 			ni, si := rng.Intn(len(Namespaces)), rng.Intn(len(ServiceNames))
 			pod := Pod(Namespaces[ni], fmt.Sprintf("%s-pod1", ServiceNames[si]), ServiceNames[si], ip(ni, si, 0, 8), 8080, rng.Intn(2) == 0)
-			if _, ok := s.objs[Key(pod)]; ok {
+			if old, ok := s.objs[Key(pod)]; ok {
 				if rng.Intn(3) == 0 {
 					ch = &pipeline.Change{Op: pipeline.Delete, Obj: pod}
 				} else {
+					// an update may also change a pod that stays terminating: it stops being
+					// a pod to drain (node lost, address gone, labels no longer selected)
+					if old.GetDeletionTimestamp() != nil && pod.DeletionTimestamp != nil {
+						switch rng.Intn(4) {
+						case 0:
+							pod.Status.Reason = "NodeLost"
+						case 1:
+							pod.Status.PodIP = ""
+						case 2:
+							pod.Labels = map[string]string{"app": "other"}
+						}
+					}
 					ch = &pipeline.Change{Op: pipeline.Update, Obj: pod}
 				}
 			} else {
